@@ -6,7 +6,8 @@
     empty piece) are proved below for every input.  That the re-slicing indices are char
     boundaries (so str_up_to / str_from cannot panic) is C01_find_offset_is_boundary. *)
 From KV Require Import Base.Prelude Model.Search Spec.Search Model.Split Spec.Split Proofs.SplitProofs.
-From KV Require Import Spec.Utf8 Proofs.SplitEmptyProofs Proofs.SplitRevProofs.
+From KV Require Import Spec.Utf8 Proofs.SplitEmptyProofs Proofs.SplitRevProofs Proofs.SplitDequeProofs.
+From KV Require Base.Deque Proofs.RevAnywhereProofs.
 Local Open Scope nat_scope.
 
 (** [split]: running [next] to exhaustion ends within [split_fuel] steps and yields the
@@ -69,6 +70,44 @@ Theorem C06_rsplit_rev_after_steps : forall d, d <> [] -> forall k h ps s,
      (s_state s = SFinished /\ join d (rev ps) = h /\ qs = [])).
 Proof. exact rsplit_rev_after_steps. Qed.
 
+(** BEYOND the property's letter (it constrains exhaustion from one end and reversal): for a
+    delimiter whose occurrences cannot overlap — no proper border; every delimiter whose first
+    element does not occur again in it, hence every one-character delimiter in UTF-8 — split's
+    pieces reversed ARE rsplit's pieces, and a Split iterator refines a deque of pieces under
+    EVERY interleaving of front and back steps (std's Split<char> is double-ended for the same
+    reason).  For delimiters with a border the two decompositions differ ("aaa" / "aa"), in std
+    as well. *)
+Theorem C06_unbordered_head_not_in_tail : forall c r, ~ In c r -> unbordered (c :: r).
+Proof. exact unbordered_head_not_in_tail. Qed.
+Theorem C06_split_rev_is_rsplit : forall d, unbordered d -> forall h ps,
+  split_rel d h ps -> rsplit_rel d h (rev ps).
+Proof. exact split_rev_is_rsplit. Qed.
+Theorem C06_rsplit_rev_is_split : forall d, unbordered d -> forall h qs,
+  rsplit_rel d h qs -> split_rel d h (rev qs).
+Proof. exact rsplit_rev_is_split. Qed.
+Theorem C06_pieces_rel : forall d h, d <> [] -> split_rel d h (pieces d h).
+Proof. exact pieces_rel. Qed.
+Theorem C06_split_refines_deque : forall d, unbordered d -> forall hist h,
+  Deque.run _ _ (fun s => to_opt (split_next s)) (fun s => to_opt (split_next_back s)) hist (split_init h d)
+  = Deque.deque_run hist (pieces d h).
+Proof. exact split_refines_deque. Qed.
+Theorem C06_split_rev_anywhere_deque : forall d, unbordered d -> forall h1 h2 h,
+  Deque.run _ _ (fun s => to_opt (split_next_back s)) (fun s => to_opt (split_next s)) h2
+      (RevAnywhereProofs.state_after _ _ (fun s => to_opt (split_next s)) (fun s => to_opt (split_next_back s)) h1 (split_init h d))
+  = Deque.deque_run h2 (rev (RevAnywhereProofs.deque_rest h1 (pieces d h))).
+Proof. exact RevAnywhereProofs.split_rev_anywhere_deque. Qed.
+(** the hypothesis is satisfiable: "é" (C3 A9), a 4-byte character, and the history F B F on
+    "a,b,c" / "," pops a, c, b *)
+Example C06_unbordered_examples : unbordered [195; 169]%Z /\ unbordered [240; 159; 167; 160]%Z /\
+  Deque.deque_run [Deque.Front; Deque.Back; Deque.Front; Deque.Front] (pieces [44]%Z [97; 44; 98; 44; 99]%Z)
+  = [Some [97]%Z; Some [99]%Z; Some [98]%Z; None].
+Proof.
+  split; [|split].
+  - apply unbordered_head_not_in_tail. cbn. intros [H|[]]; discriminate.
+  - apply unbordered_head_not_in_tail. cbn. intros [H|[H|[H|[]]]]; discriminate.
+  - vm_compute. reflexivity.
+Qed.
+
 (** the empty delimiter: std yields "", every char, "" (split), the same backwards (rsplit),
     and without the final "" for the terminator forms; [segs h = Some es] says h is valid UTF-8
     with characters es *)
@@ -101,3 +140,10 @@ Print Assumptions C06_split_remainder.
 Print Assumptions C06_rsplit_remainder.
 Print Assumptions C06_split_rev_after_steps.
 Print Assumptions C06_rsplit_rev_after_steps.
+Print Assumptions C06_unbordered_head_not_in_tail.
+Print Assumptions C06_split_rev_is_rsplit.
+Print Assumptions C06_rsplit_rev_is_split.
+Print Assumptions C06_pieces_rel.
+Print Assumptions C06_split_refines_deque.
+Print Assumptions C06_unbordered_examples.
+Print Assumptions C06_split_rev_anywhere_deque.
